@@ -1,5 +1,6 @@
 """C11 — JWK import/export round-trips key material (E2 kernels for member encodings, E1 for validation / identity / byte export)."""
 import types, z3
+import joserfc.jwk  # noqa  (registers secp256k1 with the EC binding, as every public entry point does)
 from vlib import pysym as P
 from vlib.core import Cond, Obl
 from vlib import gen
